@@ -46,8 +46,10 @@ CardOptions ==
      WithDir(ScalarA("Mini", "lm", << <<"m", IntV("1")>> >>), "loadable"),                                \* 12 loadable boundary
      ScalarA("Mini", "noarg", <<>>) >>                                                                  \* 13 nullable argument omitted
 
+RECURSIVE ValUses(_, _)
+ValUses(x, v) == x = v \/ (x.t = "obj" /\ \E j \in DOMAIN x.fields : ValUses(x.fields[j][2], v))
 RECURSIVE UsesVarIn(_, _)
-UsesVarIn(sels, v) == \E i \in DOMAIN sels : (\E j \in DOMAIN sels[i].args : sels[i].args[j][2] = v)
+UsesVarIn(sels, v) == \E i \in DOMAIN sels : (\E j \in DOMAIN sels[i].args : ValUses(sels[i].args[j][2], v))
                                               \/ (IsLinkedSel(sels[i]) /\ UsesVarIn(sels[i].sels, v))
 RECURSIVE UsesName(_, _)
 UsesName(sels, name) == \E i \in DOMAIN sels : sels[i].name = name \/ (IsLinkedSel(sels[i]) /\ UsesName(sels[i].sels, name))
